@@ -256,6 +256,66 @@ func SharedSetOperator(m *rm.Model, typ, rel string) bool {
 	return false
 }
 
+// SharedNodeUnderSetOperator: the target reaches an intersection or an exclusion, and some relation in
+// the reachable part of the model is referred to from two different places (whatever its own rewrite).
+func SharedNodeUnderSetOperator(m *rm.Model, typ, rel string) bool {
+	if !ReachesKind(m, typ, rel, rm.Difference) && !ReachesKind(m, typ, rel, rm.Intersection) {
+		return false
+	}
+	type node struct{ t, r string }
+	seen := map[node]bool{}
+	refs := map[node]map[string]bool{}
+	stack := []node{{typ, rel}}
+	ref := func(to node, from string) {
+		if refs[to] == nil {
+			refs[to] = map[string]bool{}
+		}
+		refs[to][from] = true
+		stack = append(stack, to)
+	}
+	for len(stack) > 0 {
+		n := stack[len(stack)-1]
+		stack = stack[:len(stack)-1]
+		if seen[n] {
+			continue
+		}
+		seen[n] = true
+		r := m.Rel(n.t, n.r)
+		if r == nil {
+			continue
+		}
+		from := n.t + "#" + n.r
+		for _, res := range r.Restrictions {
+			if res.Relation != "" {
+				ref(node{res.Type, res.Relation}, from+"/userset")
+			}
+		}
+		var walk func(rw *rm.Rewrite, path string)
+		walk = func(rw *rm.Rewrite, path string) {
+			switch rw.Kind {
+			case rm.Computed:
+				ref(node{n.t, rw.Relation}, from+path+"/computed")
+			case rm.TTU:
+				if ts := m.Rel(n.t, rw.Tupleset); ts != nil {
+					for _, res := range ts.Restrictions {
+						ref(node{res.Type, rw.Relation}, from+path+"/ttu:"+rw.Tupleset)
+					}
+				}
+			}
+			for i, c := range rw.Children {
+				walk(c, fmt.Sprintf("%s.%d", path, i))
+			}
+		}
+		walk(r.Rewrite, "")
+	}
+	for _, from := range refs {
+		if len(from) >= 2 {
+			return true
+		}
+	}
+	return false
+}
+
 // RepeatsLeaf reports whether some relation uses the same leaf operand (computed userset,
 // tuple-to-userset or direct assignment) twice anywhere in its rewrite.
 func RepeatsLeaf(m *rm.Model) bool {
@@ -694,6 +754,8 @@ func (e *Env) missingTags(st *rm.State, rq gen.Request, o string) string {
 		return " model_repeats_a_leaf_operand_in_one_relation"
 	case SharedSetOperator(e.Sc.Model, rm.ObjType(o), rq.Rel):
 		return " intersection_or_exclusion_reached_over_two_edges"
+	case SharedNodeUnderSetOperator(e.Sc.Model, rm.ObjType(o), rq.Rel):
+		return " relation_reached_over_two_edges_under_a_set_operator"
 	}
 	return ""
 }
